@@ -151,6 +151,7 @@ fn std_part(ctx: &Ctx, thorough: bool) {
     }
     // externally provided mappings: the pointer must be page aligned; never mapped or unmapped by the library
     let arena = crate::arena::Arena::new(2);
+    let arena3 = crate::arena::Arena::new(4);
     for delta in [0usize, 1, 8, 2048, 4095, 4096] {
         for &size in &[0usize, 1, 4096, 8192] {
             for with_file in [false, true] {
@@ -192,6 +193,52 @@ fn std_part(ctx: &Ctx, thorough: bool) {
                 }
                 if !log.is_empty() {
                     fail(ctx, "C15/std/build_raw/mmap-called", format!("{:?}", log), rp());
+                }
+            }
+        }
+    }
+    // the same for every flag word a caller may describe its own mapping with: the alignment rule
+    // for the raw pointer does not depend on the flags (huge-page, populate, lock, stack, ... bits)
+    {
+        const MAP_HUGE_SHIFT: i32 = 26;
+        let mut words: Vec<i32> = flag_words.iter().cloned().filter(|w| w & libc::MAP_FIXED == 0).collect();
+        let base_w = libc::MAP_PRIVATE | libc::MAP_ANONYMOUS;
+        for extra in [libc::MAP_HUGETLB, libc::MAP_HUGETLB | (21 << MAP_HUGE_SHIFT), libc::MAP_HUGETLB | (30 << MAP_HUGE_SHIFT), libc::MAP_HUGETLB | (12 << MAP_HUGE_SHIFT), libc::MAP_HUGETLB | (1 << MAP_HUGE_SHIFT), libc::MAP_POPULATE, libc::MAP_LOCKED, libc::MAP_STACK, libc::MAP_GROWSDOWN, libc::MAP_NONBLOCK, libc::MAP_SYNC, 1 << 20, 1 << 30] {
+            words.push(base_w | extra);
+            words.push(libc::MAP_SHARED | extra);
+        }
+        for &flags in &words {
+            for delta in [0usize, 1, 8, 512, 2048, 4095, 4096, 8192 + 16] {
+                for &size in &[1usize, 4096] {
+                    ctx.case(true);
+                    // SAFETY: inside the arena (3 pages are reserved below)
+                    let p = unsafe { arena3.ptr().add(delta) };
+                    let must_fail = (p as usize) % 4096 != 0;
+                    let rp = || json!({"api": "build_raw", "pointer_offset_in_page": delta % 4096, "size": size, "flags": format!("{:#x}", flags)});
+                    // SAFETY: the arena outlives the region; the memory is never dereferenced through it
+                    let (res, log) = record_maps(|| unsafe { MmapRegion::<()>::build_raw(p, size, libc::PROT_READ | libc::PROT_WRITE, flags) });
+                    match res {
+                        Ok(r) => {
+                            if must_fail {
+                                fail(ctx, "C15/std/build_raw/misaligned-pointer-accepted", format!("flags {:#x}: pointer at page offset {} accepted", flags, delta % 4096), rp());
+                            }
+                            if r.owned() || r.as_ptr() != p || r.size() != size || r.flags() != flags {
+                                fail(ctx, "C15/std/build_raw/attributes", format!("flags {:#x}: owned={} size={} flags={:#x}", flags, r.owned(), r.size(), r.flags()), rp());
+                            }
+                            let ((), log2) = record_maps(|| drop(r));
+                            if !log2.is_empty() {
+                                fail(ctx, "C15/std/build_raw/external-mapping-touched-on-drop", format!("{:?}", log2), rp());
+                            }
+                        }
+                        Err(_) => {
+                            if !must_fail {
+                                fail(ctx, "C15/std/build_raw/aligned-pointer-refused", format!("flags {:#x}: pointer at page offset {}", flags, delta % 4096), rp());
+                            }
+                        }
+                    }
+                    if !log.is_empty() {
+                        fail(ctx, "C15/std/build_raw/mmap-called", format!("{:?}", log), rp());
+                    }
                 }
             }
         }
@@ -576,7 +623,7 @@ fn file_histories(ctx: &Ctx) {
 
 pub fn run(tier: Tier, replay: Option<String>) -> i32 {
     let ctx = crate::new_ctx("C15", tier, "fault_enumeration", &replay);
-    ctx.set_rule("Unix build: file lengths {0,1,4095,4096,4097,8192,12288} x offsets {0,1,4096,len-1,len,len+1,2^64-4096,2^64-1} x sizes {0,1,4096,rest-1,rest,rest+1,isize::MAX,usize::MAX} x all 32 subsets of {PRIVATE,SHARED,ANONYMOUS,NORESERVE,FIXED} (x 3 protections in the thorough tier) through MmapRegion::build / from_file / GuestRegionMmap::from_range and the builder with the hugetlbfs hint {unset, false, true}, anonymous requests, injected mmap failure, build_raw with pointers at page offset {0,1,8,2048,4095} with and without a backing file, guest bases within +-2 of the top of the address space, byte-by-byte coherence of shared file regions in both directions. Xen build: all 256 low mmap-flag bytes plus every single high bit (alone and combined with GRANT) x {no file, device file at offset 0, at offset 4096} x sizes (incl. past the end of the file for plain file mappings) x hugetlbfs hint {unset, false, true} x injected {none, ioctl failure, mmap failure} on the emulated gntdev/privcmd. Both builds: every sequence of three file lengths out of {0,4096,8192,12288} with every size requested after each change through one FileOffset lineage (the predicate refers to the file as it is now), and every length query of a valid construction answered with EIO / length 0 / length 2^40 (one deviation per run): whatever the outcome, nothing may stay mapped. Oracle: the statement's acceptance predicate (must fail: MAP_FIXED - which must not even reach the kernel -, overflowing or past-EOF file range, misaligned raw pointer, end beyond the address space, unknown/contradictory Xen type bits, missing file or non-zero offset for foreign/grant; safe requests the OS refuses may fail too); on success the attributes echo the request and exactly one mapping with the requested arguments was made; on failure the interposed mapping log (and the device) show nothing left mapped. One case = one request; all non-trivial; distinct by construction.");
+    ctx.set_rule("Unix build: file lengths {0,1,4095,4096,4097,8192,12288} x offsets {0,1,4096,len-1,len,len+1,2^64-4096,2^64-1} x sizes {0,1,4096,rest-1,rest,rest+1,isize::MAX,usize::MAX} x all 32 subsets of {PRIVATE,SHARED,ANONYMOUS,NORESERVE,FIXED} (x 3 protections in the thorough tier) through MmapRegion::build / from_file / GuestRegionMmap::from_range and the builder with the hugetlbfs hint {unset, false, true}, anonymous requests, injected mmap failure, build_raw with pointers at page offset {0,1,8,2048,4095} with and without a backing file and for 58 flag words (all subsets of the basic bits plus huge-page sizes, populate, lock, stack, growsdown, nonblock, sync and unknown high bits: the pointer rule does not depend on the flags), guest bases within +-2 of the top of the address space, byte-by-byte coherence of shared file regions in both directions. Xen build: all 256 low mmap-flag bytes plus every single high bit (alone and combined with GRANT) x {no file, device file at offset 0, at offset 4096} x sizes (incl. past the end of the file for plain file mappings) x hugetlbfs hint {unset, false, true} x injected {none, ioctl failure, mmap failure} on the emulated gntdev/privcmd. Both builds: every sequence of three file lengths out of {0,4096,8192,12288} with every size requested after each change through one FileOffset lineage (the predicate refers to the file as it is now), and every length query of a valid construction answered with EIO / length 0 / length 2^40 (one deviation per run): whatever the outcome, nothing may stay mapped. Oracle: the statement's acceptance predicate (must fail: MAP_FIXED - which must not even reach the kernel -, overflowing or past-EOF file range, misaligned raw pointer, end beyond the address space, unknown/contradictory Xen type bits, missing file or non-zero offset for foreign/grant; safe requests the OS refuses may fail too); on success the attributes echo the request and exactly one mapping with the requested arguments was made; on failure the interposed mapping log (and the device) show nothing left mapped. One case = one request; all non-trivial; distinct by construction.");
     ctx.assume("mmap/munmap/ioctl/lseek are observed and faulted through link-time interposition; gntdev/privcmd are emulated");
     if ctx.replay_of.is_some() {
         println!("replay: deterministic enumeration; re-running it");
